@@ -9,7 +9,7 @@ from vlib import lean
 from vlib.common import REPO
 
 THEOREMS = ["Poupool.C09.strict_graph_ranked", "Poupool.C09.no_wait_cycle", "Poupool.C09.filtration_never_waits_for_heating_or_swim",
-            "Poupool.Blocking.no_deadlock"]
+            "Poupool.Blocking.no_deadlock", "Poupool.C09.every_actor_responsive", "Poupool.Blocking.all_responsive"]
 MODULE = "Poupool.Properties.C09"
 
 
